@@ -15,7 +15,7 @@ for f in sorted(glob.glob('/verif/evidence/C*.json')):
 def short(n):
     n=n.replace('github.com/istio-ecosystem/authservice/internal/','').replace('github.com/istio-ecosystem/authservice/','')
     return re.sub(r'\(\*?([\w.]+)\)\.',r'\1.',n)
-IFACES=('TLSConfig.','TLSConfigPool.','Handler.','JWKSProvider.','SessionGenerator.','SessionStore.','SessionStoreFactory.')
+IFACES=('Reader.','TLSConfig.','TLSConfigPool.','Handler.','JWKSProvider.','SessionGenerator.','SessionStore.','SessionStoreFactory.')
 bad=0
 for u in sorted(used):
     s=short(u)
